@@ -32,13 +32,19 @@ impl<'a> Plugin for TableAccess<'a> {
 
         let mut found = None;
 
-        visit_relations(ast, |relation| {
-            let relation = relation.to_string();
-            let parts = relation.split('.').collect::<Vec<&str>>();
-            let table_name = parts.last().unwrap();
+        let _ = visit_relations(ast, |relation| {
+            // Resolve the name like Postgres does: unquoted identifiers are folded
+            // to lower case, quoted ones are taken verbatim.
+            let table_name = match relation.0.last() {
+                Some(ident) => match ident.quote_style {
+                    Some(_) => ident.value.clone(),
+                    None => ident.value.to_lowercase(),
+                },
+                None => return ControlFlow::<()>::Continue(()),
+            };
 
-            if self.tables.contains(&table_name.to_string()) {
-                found = Some(table_name.to_string());
+            if self.tables.contains(&table_name) {
+                found = Some(table_name);
                 ControlFlow::<()>::Break(())
             } else {
                 ControlFlow::<()>::Continue(())
